@@ -695,7 +695,7 @@ func c02RekeyTie(r *Result, rng *rand.Rand, n int) {
 
 func init() {
 	register("C02", func(r *Result, rng *rand.Rand, tier string) {
-		n := map[string]int{"quick": 400, "thorough": 5000, "search": 3000}[tier]
+		n := map[string]int{"quick": 500, "thorough": 5000, "search": 3000}[tier]
 		for i := 0; i < n && !expired(); i++ {
 			c02RekeyOne(r, rng.Int63())
 		}
